@@ -153,6 +153,21 @@ list's neighbour steps return position +-1 inside the sequence and EMPTY_REF exa
      ["binary_search_by* / retain contracts of std"],
      {'LIVE': 2, 'GATE': 8, 'LISTSEARCH': 30, 'ENDSENT': 4, 'HANDLE': 6, 'BYPASS': 15})
 
+prop('C14', """
+Static analysis (MIR/SSA, linear forms over the constructor's arguments and the layout's fields; nothing is evaluated on
+numbers). Decided clauses - the structural skeleton of the layout arithmetic: the layout stores a shift of the form
+bitlen(X) - K (bitlen written as ilog2(X) + 1 or BITS - leading_zeros(X)) where X, as a linear form of the constructor's
+arguments, is exactly max - min: the largest offset has at most bitlen(X) bits, so the domain maximum maps below 2^K, and
+no smaller shift does (smallest common power-of-two width); K is 5 (32 buckets); the constructor returns None exactly on
+paths that established bitlen(max - min) < K (or a point count of at most 16 through a constant guard) and Some only on
+paths that established bitlen(max - min) >= K: refused for 16 points or fewer, built for 17 or more; the position function
+is (v - min) >> shift and nothing else (monotone, 0 at the domain minimum) and narrows only the shifted value; the number
+of lists the tree allocates and the endpoint positions the mask builders address evaluate, for the domain maximum, to the
+same term plus a non-negative constant (every place is backed by storage) [SIZING]. Not decided: the integer semantics of
+ilog2 / leading_zeros / shifts (taken as documented), monotonicity of the heap numbering (C15).""",
+     ["documented semantics of u64::ilog2 / leading_zeros / >> ; C15 (places of a bucket range lie at or below the heap index of its last bucket)"],
+     {'SIZING': 6})
+
 prop('C16', """
 Static analysis (MIR/SSA). Decided clauses: on the expired side of the expiry test (expiration < time) the scanned copy
 is physically removed (swap_remove at the tested position) and never yielded, and on the live side it is never removed
@@ -180,9 +195,9 @@ buffer.clear() dominates every return; segment tree: every bucket list is cleare
 adapter and no early exit, through Chunk::clear which clears its vector), or the field is never written after
 construction (layout), or it is a reasoned exemption (the arena behind an empty root; its slot accounting is C11)
 [RESET]. Not decided: behavioural indistinguishability of suffix histories (handle numbering after clear differs from
-a fresh instance and is unobservable only up to renaming).""",
+a fresh instance and is unobservable only up to renaming). A slot taken from the pool enters the tree with empty child links (written at allocation, or guaranteed by a reset before every release including those of clear): what clear puts on the free list cannot bring an old subtree back [FRESH].""",
      ["C11 (clear returns every slot)"],
-     {'RESET': 12})
+     {'RESET': 12, 'FRESH': 6})
 
 prop('C17', """
 Static analysis (call-graph closure + MIR stores). Decided clause (sufficient and necessary for slot content, given
